@@ -1487,7 +1487,8 @@ class sptensor:
                 "Cannot call nvecs on sptensor with only singleton dimensions"
             )
         tnt = self.to_sptenmat(rdims=np.array([n])).double().transpose()
-        y = tnt.transpose().dot(tnt)
+        # The sparse eigensolver only accepts floating point matrices
+        y = tnt.transpose().dot(tnt).astype(float)
         if r < y.shape[0] - 1:
             w, v = scipy.sparse.linalg.eigsh(y, r)
             v = v[:, (-np.abs(w)).argsort()]
